@@ -152,6 +152,11 @@ def render_pattern(spec: dict) -> str:
         else:
             body.append("%newr = pdl.result 0 of %new")
             body.append(f"pdl.replace {R} with (%newr : !pdl.value)")
+    elif rw[0] == "const-outer":
+        # the constant attribute lives in the match section, bound to no matched op, and is used by the rewrite
+        lines.append(f"%outa = pdl.attribute = {rw[1]} : i32")
+        body.append(f'%new = pdl.operation "arith.constant" {{"value" = %outa}} -> ({root["type"]} : !pdl.type)')
+        body.append(f"pdl.replace {R} with %new")
     elif rw[0] == "const":
         body.append(f"%newa = pdl.attribute = {rw[1]} : i32")
         body.append(f'%new = pdl.operation "arith.constant" {{"value" = %newa}} -> ({root["type"]} : !pdl.type)')
@@ -245,6 +250,9 @@ def _rewrites(root: tuple, full: bool) -> list[tuple]:
             out.append(("new-nested", "test.op", "swap", True, "op"))
     out.append(("const", 0))
     out.append(("const", 1))
+    if len(operands) == 2 and operands[0] == ANY and operands[1] in (ANY, ("same", 0)):
+        out.append(("const-outer", 0))
+        out.append(("const-outer", 1))
     return out
 
 
@@ -681,10 +689,15 @@ def pattern_class(pm: Any) -> tuple[str, frozenset, str]:
         elif len(root_op.type_values) > 1:
             feats.add("multi-results")
     n_operand_slots: dict[Any, int] = {}
+    unbound = False
     for o in match_ops:
         if isinstance(o, pdl.OperationOp):
             for v in o.operand_values:
                 n_operand_slots[v] = n_operand_slots.get(v, 0) + 1
+        if isinstance(o, (pdl.AttributeOp, pdl.TypeOp)) and not any(u.operation.parent_op() is pat and u.operation is not rw for u in o.results[0].uses):
+            if any(u.operation is rw or u.operation.parent_op() is rw for u in o.results[0].uses):
+                unbound = True      # a constant of the match section that only the rewrite uses
+            continue
         if isinstance(o, pdl.AttributeOp):
             if o.value is not None:
                 feats.add("attr=0" if isinstance(o.value, IntegerAttr) and o.value.value.data == 0 else "attr=const")
@@ -704,6 +717,8 @@ def pattern_class(pm: Any) -> tuple[str, frozenset, str]:
     if any(c > 1 for c in n_operand_slots.values()):
         feats.add("same-value")
     rws: set[str] = set()
+    if unbound:
+        rws.add("uses-unbound-match-constant")
     if rw.body is None or not rw.body.blocks:
         rws.add("external")
     else:
